@@ -78,6 +78,11 @@ func (l *bucketLedger) ReadLogWithIdempotencyKey(ctx context.Context, key string
 	return l.ls.ReadLogWithIdempotencyKey(ctx, key)
 }
 
+// GetLastLog: the head a Commander resumes the chain from when it starts, read through the real SQL store.
+func (l *bucketLedger) GetLastLog(ctx context.Context) (*ledger.ChainedLog, error) {
+	return l.ls.GetLastLog(ctx)
+}
+
 type bucketPublisher struct {
 	mu   sync.Mutex
 	msgs [][]byte
@@ -145,9 +150,21 @@ func sharedBucket(rt *rapid.T, c *evid.Collector, prop string) {
 			harnessError(rt, "cannot start the commander of %s: %v", name, err)
 		}
 		go cm.Run(ctx)
-		defer cm.Close()
 		stores[name], commanders[name], pubs[name] = st, cm, pub
 	}
+	start := func(name string) {
+		cm := command.New(stores[name], command.NewDefaultLocker(), command.NewCompiler(64), command.NewReferencer(), bus.NewLedgerMonitor(pubs[name], name))
+		if err := cm.Init(ctx); err != nil {
+			harnessError(rt, "cannot start the commander of %s: %v", name, err)
+		}
+		go cm.Run(ctx)
+		commanders[name] = cm
+	}
+	defer func() {
+		for _, cm := range commanders {
+			cm.Close()
+		}
+	}()
 	n := rapid.IntRange(3, 10).Draw(rt, "sbOps")
 	used := map[string]string{} // ledger/key -> kind that used it first
 	var desc []string
@@ -162,6 +179,12 @@ func sharedBucket(rt *rapid.T, c *evid.Collector, prop string) {
 	sharedKey := false
 	for i := 0; i < n; i++ {
 		name := rapid.SampledFrom(names).Draw(rt, "sbLedger")
+		if i > 0 && rapid.IntRange(0, 3).Draw(rt, "sbRestart") == 0 {
+			// the process serving that ledger is restarted: it resumes its chain from what the store holds for it
+			commanders[name].Close()
+			start(name)
+			desc = append(desc, "restart "+name)
+		}
 		kind := rapid.SampledFrom([]string{"create", "create", "save_meta", "delete_meta"}).Draw(rt, "sbKind")
 		key := rapid.SampledFrom([]string{"", "k1", "k1", "k2"}).Draw(rt, "sbKey")
 		tag := fmt.Sprintf("op%d", i)
@@ -233,6 +256,24 @@ func sharedBucket(rt *rapid.T, c *evid.Collector, prop string) {
 			if key != "" {
 				used[name+"/"+key] = kind
 			}
+		}
+	}
+	// each ledger's log is a chain of its own: ids 0,1,2,... and every hash the digest of the previous one and the content
+	for _, name := range names {
+		var prev *ledger.ChainedLog
+		for i, e := range stores[name].Entries {
+			if e.Log.ID.Int64() != int64(i) {
+				if fail(prop+"/shared-bucket/log-id", "entry %d of ledger %s carries id %v (the other ledger of the bucket holds %d entries)", i, name, e.Log.ID, len(stores[otherOf(name)].Entries)) {
+					return
+				}
+			}
+			re := e.Log.Log.ChainLog(prev)
+			if string(re.Hash) != string(e.Log.Hash) {
+				if fail(prop+"/shared-bucket/hash", "entry %d of ledger %s: its hash is not the digest of the previous entry of that ledger and its content", i, name) {
+					return
+				}
+			}
+			prev = e.Log
 		}
 	}
 	// events: each names its ledger and describes an entry of that ledger
